@@ -181,10 +181,17 @@ func (e *env) get(c *caseJ, mem int64) (*wafEnv, error) {
 		waf.ResponseBodyLimit = c.Limit
 		waf.ResponseBodyLimitAction = act
 		waf.ResponseBodyMimeTypes = []string{"text/plain"}
+		// the request in-memory limit is a setting of the same WAF, drawn independently of the
+		// response limit (the default request limit, 128 MiB, is above every value used here)
+		if mem > 0 {
+			waf.SetRequestBodyInMemoryLimit(mem)
+		}
 	} else {
 		waf.RequestBodyAccess = !c.NoAccess
 		waf.RequestBodyLimit = c.Limit
-		waf.SetRequestBodyInMemoryLimit(mem)
+		if mem > 0 {
+			waf.SetRequestBodyInMemoryLimit(mem)
+		}
 		waf.RequestBodyLimitAction = act
 	}
 	rules := fmt.Sprintf("SecAction \"id:1,phase:%d,pass,nolog,setvar:tx.p=+1,setvar:tx.seen=x%%{%s}\"\n", phase, v)
@@ -214,6 +221,7 @@ type obs struct {
 	phase    int
 	spilled  bool
 	intr     int
+	lenvar   string // REQUEST_BODY_LENGTH / RESPONSE_CONTENT_LENGTH
 	// oracle material
 	perCall   [][]byte // contents after each call (small cases only)
 	fileInDir bool
@@ -398,9 +406,11 @@ func drive(e *env, c *caseJ, mem int64, perCall bool) (*obs, error) {
 	vars := tx.Variables()
 	if resp {
 		o.bodyvar = vars.ResponseBody().Get()
+		o.lenvar = vars.ResponseContentLength().Get()
 		o.dataerr = vars.OutboundDataError().Get() == "1"
 	} else {
 		o.bodyvar = vars.RequestBody().Get()
+		o.lenvar = vars.RequestBodyLength().Get()
 		o.dataerr = vars.InboundDataError().Get() == "1"
 	}
 	if runs() > 0 {
@@ -471,8 +481,8 @@ func (c *caseJ) term(o *obs) string {
 	if o.seen != nil {
 		seen = "(Some " + obytes([]byte(*o.seen), large) + ")"
 	}
-	fin := fmt.Sprintf("(Build_ofinal %s %s %s %s %s %s %s %s)",
-		obytes(o.contents, large), vh.Z(o.size), obytes([]byte(o.bodyvar), large), seen, coqBool(o.dataerr), vh.Z(int64(o.phase)), coqBool(o.spilled), vh.Z(int64(o.intr)))
+	fin := fmt.Sprintf("(Build_ofinal %s %s %s %s %s %s %s %s %s)",
+		obytes(o.contents, large), vh.Z(o.size), obytes([]byte(o.bodyvar), large), seen, coqBool(o.dataerr), vh.Z(int64(o.phase)), coqBool(o.spilled), vh.Z(int64(o.intr)), vh.HxS(o.lenvar))
 	return fmt.Sprintf("CT %s %s %s %s %s %s %s %s %s %s %s %s %s %s", dir, vh.Z(c.Limit), vh.Z(c.Mem), act,
 		coqBool(!c.NoAccess), coqBool(!c.EngineOff), bp, coqBool(!c.NotProcessable), coqBool(c.Deny), vh.Z(int64(c.Phase0)),
 		body, vh.List(calls), vh.List(rets), fin)
@@ -488,7 +498,7 @@ func natTerm(n int) string {
 
 func (c *caseJ) fill(o *obs) {
 	c.Rets = o.rets
-	c.Final = map[string]any{"size": o.size, "dataerr": o.dataerr, "phase": o.phase, "spilled": o.spilled, "intr": o.intr, "panicked": o.panicked}
+	c.Final = map[string]any{"size": o.size, "dataerr": o.dataerr, "phase": o.phase, "spilled": o.spilled, "intr": o.intr, "panicked": o.panicked, "lenvar": o.lenvar}
 	if c.GenLen == 0 {
 		c.Final["contents_hex"] = hex.EncodeToString(o.contents)
 		c.Final["bodyvar_hex"] = hex.EncodeToString([]byte(o.bodyvar))
@@ -539,6 +549,8 @@ func equalObs(a, b *obs) string {
 		return "last phase"
 	case a.intr != b.intr:
 		return "interruption"
+	case a.lenvar != b.lenvar:
+		return "body length variable"
 	}
 	return ""
 }
@@ -560,8 +572,11 @@ func (r *runner) runTx(c *caseJ) error {
 	if c.Action == "" {
 		c.Action = "reject"
 	}
-	if c.Dir == "resp" {
-		c.Mem = c.Limit // the response buffer is created with MemoryLimit = Limit
+	// effective memory limit of the buffer: the response buffer is created with MemoryLimit = Limit
+	// whatever the request in-memory limit is; an unset (<= 0) in-memory limit means the limit
+	effMem := c.Mem
+	if c.Dir == "resp" || c.Mem <= 0 {
+		effMem = c.Limit
 	}
 	small := c.GenLen == 0 && len(c.BodyHex) <= 64
 	o, err := drive(r.e, c, c.Mem, small)
@@ -596,7 +611,7 @@ func (r *runner) runTx(c *caseJ) error {
 	if o.spilled && o.memLen != 0 {
 		r.fail("c10-spill-mem", "memory buffer not emptied after the spill", c)
 	}
-	if o.spilled != (int64(len(o.contents)) > c.Mem) && !hasCtl(c) {
+	if o.spilled != (int64(len(o.contents)) > effMem) && !hasCtl(c) {
 		r.fail("c10-spill-threshold", "spill file in use is not equivalent to stored length > memory limit", c)
 	}
 	if o.leftover || o.closeErr != nil {
@@ -664,7 +679,7 @@ func (r *runner) runTx(c *caseJ) error {
 		}
 	}
 	// memory/file agreement: the same sequence with the spill disabled (memory limit = limit)
-	if c.Dir == "req" && c.Mem < c.Limit {
+	if c.Mem > 0 && c.Mem < c.Limit {
 		r.oracle++
 		o2, err := drive(r.e, c, c.Limit, false)
 		if err != nil {
@@ -692,6 +707,12 @@ func (r *runner) runTx(c *caseJ) error {
 	}
 	if hasCtl(c) {
 		d["with_ctl_limit"]++
+	}
+	if c.Dir == "resp" && c.Mem > 0 && int64(len(o.contents)) > c.Mem {
+		d["resp_stored_above_request_inmem_limit"]++
+	}
+	if c.Mem <= 0 {
+		d["inmem_limit_unset"]++
 	}
 	if !active {
 		d["access_or_engine_off"]++
@@ -1024,13 +1045,17 @@ func generate(cfg vh.Config, rng *rand.Rand, r *runner) error {
 		for limit := 1; limit <= maxLimit; limit++ {
 			for mem := 1; mem <= limit; mem++ {
 				if dir == "resp" && mem != limit {
-					continue // the response buffer never spills: memory limit = limit
+					continue // for responses the in-memory limit is not a grid dimension: drawn per case below
 				}
 				for _, act := range []string{"reject", "partial"} {
 					for n := 0; n <= sampledLen; n++ {
 						for _, parts := range compositions(n) {
 							mk := func(calls []callJ) error {
 								c := &caseJ{Kind: "tx", Dir: dir, Limit: int64(limit), Mem: int64(mem), Action: act, BodyHex: randBody(rng, n)}
+								if dir == "resp" {
+									// SecRequestBodyInMemoryLimit independent of the response limit: below, at, above, unset
+									c.Mem = int64(rng.Intn(limit + 3))
+								}
 								decorate(rng, c, calls)
 								return r.runTx(c)
 							}
@@ -1070,6 +1095,13 @@ func generate(cfg vh.Config, rng *rand.Rand, r *runner) error {
 		c := &caseJ{Kind: "tx", Dir: "req", Limit: limit, Mem: mem, Action: []string{"reject", "partial"}[rng.Intn(2)]}
 		if rng.Intn(3) == 0 {
 			c.Dir = "resp"
+			// the in-memory limit may also exceed the response limit
+			if rng.Intn(4) == 0 {
+				c.Mem = limit + 1 + rng.Int63n(limit+1)
+			}
+		}
+		if rng.Intn(12) == 0 {
+			c.Mem = 0 // SecRequestBodyInMemoryLimit not configured
 		}
 		// total size around the limit
 		total := int(limit) + rng.Intn(7) - 3
@@ -1135,7 +1167,7 @@ func generate(cfg vh.Config, rng *rand.Rand, r *runner) error {
 		dir        string
 		limit, mem int64
 	}
-	bigs := []big{{"req", 524288, 131072}, {"req", 262144, 131072}, {"req", 131072, 131072}, {"resp", 524288, 524288}}
+	bigs := []big{{"req", 524288, 131072}, {"req", 262144, 131072}, {"req", 131072, 131072}, {"resp", 524288, 131072}}
 	for i := 0; i < cfg.Pick(6, 48); i++ {
 		b := bigs[i%len(bigs)]
 		act := []string{"reject", "partial"}[(i/len(bigs))%2]
